@@ -203,6 +203,16 @@ func checkMaxDiffWatermark(c *core.Ctx, rule string) {
 							last = e.Args[0]
 						}
 					}
+					if last == nil {
+						// a field of a state object
+						if i := strings.LastIndex(name, "."); i > 0 {
+							if base, ok := out.Env[name[:i]]; ok && base != nil {
+								if fv := out.Field(base, name[i+1:]); fv != nil && fv.Canon() != name {
+									last = fv
+								}
+							}
+						}
+					}
 					return last
 				}
 				if adv {
